@@ -118,10 +118,10 @@ def run(ctx):
     # (coq/GenOrder: Main_order_invariant under the decidable side condition order_ok): the permutations the harness
     # performs are checked to be admissible in the theorem's sense, order_ok is evaluated on both programs, and the
     # whole-program correspondence is run on the permuted program
-    gen_order.extra(ctx, out, 14, 400)
+    gen_order.extra(ctx, out, 14, 250)
     # the same for ALL programs of the multi-currency model and their admissible permutations (coq/GenOrder2:
     # Main2_order_invariant under order_ok2)
-    gen_order2.extra(ctx, out, 16, 400)
+    gen_order2.extra(ctx, out, 16, 250)
     out.failures.extend(finding_probes())
     return out
 
